@@ -1,7 +1,7 @@
 SPECIFICATION Spec
 CONSTANTS
-  MaxTok = 2
-  Mode = "nowiki"
-  Depth = 0
+  MaxTok = 0
+  Mode = "nested"
+  Depth = 4
 INVARIANT GenInv
 CHECK_DEADLOCK FALSE
